@@ -13,7 +13,7 @@ CLAIMS = {
                 design="7/C19", technique="Coq proof (dual numbers) + exact autograd correspondence"),
 }
 CLAIMS.update({
-    "C01": dict(text="Theorem C01_sound: for every knowledge base (objects = indices: shared objects and structurally equal twins included), weights >= 0, any bias, both variants, alpha in (1/2,1], every interpretation consistent with the truth functions and inside the initial bounds stays inside the bounds of every object after ANY sequence of node-level upward/downward(index) and model-level upward/downward/infer calls (induction over the operation list; one-step lemmas by induction over the operand list); corollary: no contradiction. Tie: exact differential correspondence of the propositional engine (K3/K4) + hidden-interpretation monitor on the implementation.",
+    "C01": dict(text="Theorem C01_sound: for every knowledge base (objects = indices: shared objects and structurally equal twins included), weights >= 0, any bias, both variants, alpha in (1/2,1], every interpretation consistent with the truth functions and inside the initial bounds stays inside the bounds of every object after ANY sequence of node-level upward/downward(index) and model-level upward/downward/infer calls (induction over the operation list; one-step lemmas by induction over the operand list); corollary: no contradiction. Tie: exact differential correspondence of the propositional engine (K3/K4) + hidden-interpretation monitor on the implementation. Known finding float32-rounding-amplified (the theorem is about exact arithmetic; in float32 a rounding slip amplified by a weight above 1 can drive consistent data to a contradiction once bounds have left the representable grid): replayed on every run, printed as KNOWN-FINDING.",
                 design="7/C01", technique="Coq proof (invariant by induction over operations) + exact differential correspondence"),
     "C05": dict(text="Theorem C05_monotone: under Range, every sequence of public inference calls only tightens every object's bounds (aggregation = max/min + clamp). Proved for the propositional engine incl. Iff/XOr; the first-order/quantifier part is covered by the FOL model when present (see level_note).",
                 design="7/C05", technique="Coq proof (monotone invariant) + exact differential correspondence",
@@ -29,7 +29,7 @@ CLAIMS.update({
                 note=NOTE_TB + " Partial: weighted KBs may converge only asymptotically (D9); first-order/quantified KBs are monitored on the implementation only where the FOL check says so."),
     "C07": dict(text="Theorems C07_confluent / C07_contradiction_order_free / C07_step_monotone: for every propositional KB, ANY two sequences of public calls under ANY two root orders that end in fixpoints, one of them contradiction-free, end in the same bounds; if some schedule ends in a contradiction-free fixpoint every state reachable by any schedule is contradiction-free and never tighter (monotone primitive steps on contradiction-free states; arresting only fires on contradictory states).",
                 design="7/C07", technique="Coq proof (monotonicity + confluence over arbitrary schedules) + exact differential correspondence"),
-    "C20": dict(text="Theorems C20_frame / C20_node_frame (source-restricted inference and node calls write only descendants of the source, for every KB, direction, max_steps, query), C20_verdict_final (a point verdict survives every further inference on data with a consistent reading), C20_restricted_sound and C20_restricted_below_full (the restricted run is never tighter than a contradiction-free fixpoint of the full run).",
+    "C20": dict(text="Theorems C20_frame / C20_node_frame (source-restricted inference and node calls write only descendants of the source, for every KB, direction, max_steps, query), C20_verdict_final (a point verdict survives every further inference on data with a consistent reading), C20_restricted_sound and C20_restricted_below_full (the restricted run is never tighter than a contradiction-free fixpoint of the full run). The hidden-interpretation monitor this check carries reports the known finding float32-rounding-amplified recorded under C01 (KNOWN-FINDING line).",
                 design="7/C20", technique="Coq proof (frame rule over DFS descendants + monotone tightening) + exact differential correspondence"),
 })
 
